@@ -145,6 +145,15 @@ claim("C08", "other",
       "symbolic execution of the effective-Hamiltonian builders; bilinear polynomial identities decided by normal form + z3",
       "DESIGN.md section 1, C08")
 
+claim("C09", "other",
+      "Only the propagation-and-compression schemes are claimed: with canonicalise/compress as identity (assume-guarantee with C04/C05) the real Mps.evolve on symbolic states, "
+      "operators and dt equals the Taylor polynomial with the code's coefficients, the classical RK4 map and the Runge-Kutta map of each non-embedded tableau (constant and "
+      "time-dependent H); for the adaptive embedded pairs the accept/reject bookkeeping (rejected trial leaves state and time untouched, accepted trial advances both, "
+      "sub-steps add up) with an arbitrary solver-chosen error estimate, up to two trials.",
+      "NOT covered: TDVP accuracy/conservation, solver independence, quality of the step-size heuristics (float Krylov/ODE iterations). Order of accuracy rests on C19.",
+      "symbolic execution of the real evolve drivers with identity compression stubs; polynomial identities via normal form + z3",
+      "DESIGN.md section 1, C09")
+
 for pid in ["C%02d" % i for i in range(1, 21)]:
     if pid not in CHECKS:
         NA[pid] = "check not built yet (build in progress; see DESIGN.md)"
